@@ -21,6 +21,9 @@ type Env struct {
 	AckDelay []int      // per external output: ticks between seeing valid and raising received (≥1, default 1)
 	// Delays: per-opcode fixed delay in clocks for the Go simulator (VM.SimDelayMap); ignored by the HDL back end
 	Delays map[string]int `json:",omitempty"`
+	// DelayWeight: weight given to the single delay value (default 1; any positive weight denotes
+	// the same one-point distribution, e.g. a distribution built in memory and not normalised)
+	DelayWeight float32 `json:",omitempty"`
 }
 
 type inState struct {
@@ -91,7 +94,11 @@ func Start(bm *bondmachine.Bondmachine, env Env) (*Runner, error) {
 	if len(env.Delays) > 0 {
 		sd := simbox.NewSimDelays()
 		for op, d := range env.Delays {
-			sd.OpcodeDelays[op] = simbox.DelayDistribution{int32(d): 1.0}
+			w := env.DelayWeight
+			if w <= 0 {
+				w = 1.0
+			}
+			sd.OpcodeDelays[op] = simbox.DelayDistribution{int32(d): w}
 		}
 		vm.SimDelayMap = sd
 	}
